@@ -19,6 +19,19 @@ import Glom.Model.C20Env
   ("spec" / "kw": the scope of the running call handed to Spec.glom / to glom(), which reset what the
   CURRENT source resets: extracted facts); the model runs the call (`Re.runCall`) and its error class
   and trace skeleton are compared with the implementation's.
+
+  Cases in which the calls share ONE spec object with a container literal in argument position carry
+         "argsys":{"heap":[[kind,[["leaf",token]|["ref",addr]…]]…], "root":addr,
+                   "threads":[{"ev":[[token,value]…], "ops":[["bind",addr]|["push",[index…],value]|["read"]|["yield"]…],
+                               "alone":[token…]}…],
+                   "schedule":[tid…]|null}
+         and   "impl":{…, "reads":[[token…]|null…], "lits":[[token…],[token…]], "spec_same":bool}
+  (the literal as an object heap: nested, shared, cyclic; what each call does with the value it
+  receives).  The model (`Glom/Model/C20Arg.lean`: `_ArgValuator.mode` on the heap, the calls run under
+  the schedule at yield-point granularity) must read what the implementation read, and the
+  observation must pass `Arg.checkArg` against what the calls read alone; when the literal is flat
+  the by-value reference `Arg.privRun` must agree with what the calls read alone, too.
+  "spec_same" (all shared-spec cases): repr of the shared spec object after the calls == before.
 -/
 namespace Glom.C20.Driver
 open Lean Glom.C20
@@ -123,6 +136,71 @@ def sortStrs (xs : List String) : List String := (xs.toArray.qsort (· < ·)).to
 def dedup (xs : List String) : List String :=
   xs.foldl (fun acc x => if acc.contains x then acc else acc ++ [x]) []
 
+/-! ### calls sharing a spec with a container literal in argument position -/
+
+def strs (j : Json) : Except String (List String) := do (← arr j).mapM fun x => x.getStr?
+
+def kindOfStr : String → Except String Arg.Kind
+  | "list" => pure .list | "dict" => pure .dict | "set" => pure .set | "tuple" => pure .tuple
+  | "frozenset" => pure .frozenset | k => throw s!"bad kind {k}"
+
+def valOfJson (j : Json) : Except String Arg.Val := do
+  match ← arr j with
+  | [.str "leaf", .str s] => return .leaf s
+  | [.str "ref", a] => return .ref (← a.getNat?)
+  | _ => throw s!"bad value {j.compress}"
+
+def opOfJson (j : Json) : Except String Arg.Op := do
+  match ← arr j with
+  | [.str "bind", a] => return .bind (.ref (← a.getNat?))
+  | [.str "push", p, .str x] => return .push (← (← arr p).mapM fun i => i.getNat?) x
+  | [.str "read"] => return .read
+  | [.str "yield"] => return .yield
+  | _ => throw s!"bad op {j.compress}"
+
+def argFuel : Nat := 8
+
+/-- (model agrees with the implementation, the observation passes `checkArg`, report) -/
+def runArg (aj impl : Json) : Except String (Bool × Bool × Json) := do
+  let heap : Arg.Heap ← (← arr (← aj.getObjVal? "heap")).mapM fun oj => do
+    match ← arr oj with
+    | [.str k, items] => return ⟨← kindOfStr k, ← (← arr items).mapM valOfJson⟩
+    | _ => throw s!"bad object {oj.compress}"
+  let root := Arg.Val.ref (← (← aj.getObjVal? "root").getNat?)
+  let tjs ← arr (← aj.getObjVal? "threads")
+  let threads ← tjs.mapM fun tj => do
+    let table ← (← arr (← tj.getObjVal? "ev")).mapM fun e => do
+      match ← arr e with
+      | [.str k, .str v] => return (k, v)
+      | _ => throw s!"bad ev entry {e.compress}"
+    let ops ← (← arr (← tj.getObjVal? "ops")).mapM opOfJson
+    return ({ ev := fun s => (dlookup s table).getD s, ops := ops } : Arg.Thread)
+  let alone ← tjs.mapM fun tj => do strs (← tj.getObjVal? "alone")
+  let nYields (t : Arg.Thread) : Nat := (t.ops.filter fun o => match o with | .yield => true | _ => false).length
+  let schedule : List Nat ← (match aj.getObjVal? "schedule" with
+    | .ok (.arr a) => a.toList.mapM (fun x => x.getNat?)
+    | _ => pure ((List.range threads.length).flatMap fun i =>
+        List.replicate ((threads[i]?.map nYields).getD 0 + 1) i))
+  let sys := (Arg.Sys.mk heap threads).runSegments false argFuel 10000 schedule
+  let finished := sys.threads.all fun t => t.ops.isEmpty
+  let mReads := sys.threads.map Arg.lastRead
+  let mBefore := Arg.tokens heap argFuel root
+  let mAfter := Arg.tokens sys.heap argFuel root
+  let iReads ← (← arr (← impl.getObjVal? "reads")).mapM fun r => match r with
+    | .null => pure ["<no value>"]
+    | r => strs r
+  let (iBefore, iAfter) ← (match ← arr (← impl.getObjVal? "lits") with
+    | [b, a] => do pure (← strs b, ← strs a)
+    | _ => throw "bad lits")
+  -- the by-value reference, where it speaks (flat literal, pushes into the container itself)
+  let flat := threads.all fun t => t.ops.all (Arg.flatOpB heap)
+  let refReads := threads.map fun t => (Arg.privRun t.ev heap t.ops {}).out.getLast?.getD []
+  let refOk := !flat || refReads == alone
+  let agree := finished && mReads == iReads && mBefore == iBefore && mAfter == iAfter && refOk
+  let holds := Arg.checkArg alone ⟨iReads, [iBefore], [iAfter]⟩
+  return (agree, holds, Json.mkObj [("reads", toJson mReads), ("lit_before", toJson mBefore), ("lit_after", toJson mAfter),
+    ("flat", flat), ("reference", toJson refReads)])
+
 def run (j : Json) : Except String Json := do
   let max := genFacts.maxCache
   let tjs ← arr (← j.getObjVal? "threads")
@@ -154,8 +232,12 @@ def run (j : Json) : Except String Json := do
     | [.str ty, .str op, .str c, .str f] => return ((ty, op), c, f)
     | _ => throw s!"bad tcache entry {e.compress}"
   let deadlock := (impl.getObjValAs? Bool "deadlock").toOption.getD false
-  let obs : Obs := ⟨iOuts, pc, tc, deadlock⟩
-  let holds := checkC20 alone obs
+  let specSame := (impl.getObjValAs? Bool "spec_same").toOption.getD true
+  let obs : Obs := ⟨iOuts, pc, tc, deadlock, specSame⟩
+  let (argAgree, argHolds, argModel) ← (match j.getObjVal? "argsys" with
+    | .ok aj => runArg aj impl
+    | .error _ => pure (true, true, Json.null))
+  let holds := checkC20 alone obs && argHolds
   let mPaths := sortStrs (sys.sh.pathCache.map (·.1))
   let iPaths := sortStrs (pc.map (·.1))
   let mTypes := sortStrs (dedup (sys.sh.typeCache.map fun e => e.1.1 ++ ":" ++ e.1.2))
@@ -186,16 +268,23 @@ def run (j : Json) : Except String Json := do
       | .val _, _ => pure (false, Json.mkObj [("outcome", "value")])
       | .err e _, _ => pure (false, Json.mkObj [("outcome", errClass errs e)])
     | .error _ => pure (true, Json.null))
-  let agree := finished && mOutsV == iOuts && mPaths == iPaths && mTypes == iTypes && !deadlock && reAgree
+  let agree := finished && mOutsV == iOuts && mPaths == iPaths && mTypes == iTypes && !deadlock && reAgree && argAgree
+    && specSame
   let nYield := (threads.map (fun t => countUser t.1)).foldl (· + ·) 0
   let anyErr := alone.any fun o => match o with | .err _ _ => true | _ => false
   let shape := if threads.any (fun t => t.1.any fun e => match e with | .nested _ _ => true | _ => false)
-    then (if (j.getObjVal? "rspec").toOption.isSome then "reentry-modelled" else "nested") else if (j.getObjVal? "schedule").toOption.isSome then "scheduled" else "free"
+    then (if (j.getObjVal? "rspec").toOption.isSome then "reentry-modelled" else "nested")
+    else if (j.getObjVal? "argsys").toOption.isSome then
+      (if (j.getObjVal? "schedule").toOption.isSome then "shared-argument-scheduled" else "shared-argument")
+    else if (j.getObjVal? "schedule").toOption.isSome then "scheduled" else "free"
   return Json.mkObj [("agree", agree), ("holds", holds),
     ("model", Json.mkObj [("outs", Json.arr mOuts.toArray), ("paths", toJson mPaths), ("types", toJson mTypes),
-      ("reentry", reModel)]),
+      ("reentry", reModel), ("argsys", argModel)]),
     ("branch", s!"{shape}-{threads.length}threads-{if anyErr then "with-error" else "all-ok"}"),
     ("yields", nYield),
-    ("why", if holds then "" else if deadlock then "deadlock" else if iOuts != alone then "a call's outcome differs from its outcome alone" else "a cache entry differs from a fresh parse / lookup")]
+    ("why", if holds then "" else if deadlock then "deadlock" else if iOuts != alone then "a call's outcome differs from its outcome alone"
+      else if !specSame then "the spec object the calls share is not what it was before them"
+      else if !argHolds then "a call read something else than alone through a shared argument, or the literal in the spec changed"
+      else "a cache entry differs from a fresh parse / lookup")]
 
 end Glom.C20.Driver
